@@ -937,6 +937,7 @@ ABT_bool ABTI_sched_has_to_stop(ABTI_sched *p_sched)
             if (!ABTI_sched_has_unit(p_sched))
                 return ABT_TRUE;
         } else if (p_sched->used == ABTI_SCHED_IN_POOL) {
+            ABTV_REACH("sched.stacked_scheduler_stops");
             /* Let's finish it anyway.
              * TODO: think about the condition. */
             return ABT_TRUE;
